@@ -30,6 +30,11 @@ def configs(tier):
         out.append((3, 3, -1, 0, 0, "complete"))
         out.append((3, 3, 1, 0, 0, "complete"))
         out.append((3, 4, -1, 1, 0, 2))
+        # the API treats ANY non-zero callback result as failure: the default failing status is positive (42); negative status on the 2-worker core
+        for n in (2, 3):
+            for f in range(n):
+                for sh in (0, 1, 4, 6):
+                    out.append((2, n, f, sh, 0, "complete", -5))
     else:
         for w in (1, 2, 3):
             for n in (1, 2, 3):
@@ -50,11 +55,16 @@ def configs(tier):
                 for sh in (0, 2):
                     out.append((3, n, f, sh, 0, 3))
         out.append((3, 3, -1, 0, 1, 3))
+        for w in (2, 3):
+            for n in (2, 3, 4):
+                for f in range(n):
+                    for sh in range(7):
+                        out.append((w, n, f, sh, 0, "complete" if w == 2 else 3, -5))
     return out
 
 
 def weight(c):
-    w, n, f, sh, spur, mode = c
+    w, n, f, sh, spur, mode = c[:6]
     return (w + 1) ** n * (1 + 3 * spur)
 
 
@@ -75,8 +85,8 @@ def main():
         max_bound_completed = {}
 
         def record_violation(c, bound, j, r):
-            w, n, f, sh, spur, mode = c
-            hargs = [w, n, f, sh]
+            w, n, f, sh, spur, mode = c[:6]
+            hargs = [w, n, f, sh] + list(c[6:7])
             if j is None:
                 cr.harness_error = "explorer produced no result: rc=%d %s" % (r.rc, r.err.decode("latin1")[-2000:])
                 return
@@ -120,8 +130,8 @@ def main():
 
         def run_cfg(c, procs):
             """iterate preemption bounds 0,1,2 then the target mode; stop at first violation"""
-            w, n, f, sh, spur, mode = c
-            hargs = [w, n, f, sh]
+            w, n, f, sh, spur, mode = c[:6]
+            hargs = [w, n, f, sh] + list(c[6:7])
             res = []
             bounds = [0, 1, 2] + ([-1] if mode == "complete" else ([mode] if mode > 2 else []))
             if isinstance(mode, int) and mode <= 2:
@@ -145,7 +155,7 @@ def main():
 
         distinct_out = 0
         for c, res in results:
-            w, n, f, sh, spur, mode = c
+            w, n, f, sh, spur, mode = c[:6]
             done_bound = None
             for b, st, j, r in res:
                 if st == "skipped":
